@@ -7,6 +7,9 @@
 //          compared with an independent decoder and with the values written.
 //   g2448  the read-only 24/48-bit accessors (u/s, b/l, get/pget) over byte buffers at every offset.
 //   bits   BitWriter (write / truncate / reset) against a bit-list model, BitReader read/pread/skip/go.
+//   alias  values handed to the writers by reference / pointer INTO the writer's own buffer (put<T>, pput<T>,
+//          write(ptr, n), write(str()), BufferWriter): the value written is the one the argument had at the call.
+//   big    StringReader over a sparse mapping of more than 4 GiB: every accessor at offsets >= 2^32.
 #include "c01/codec.hh"
 
 // ---------------------------------------------------------------- seq
@@ -570,6 +573,373 @@ static void run_bits(const Case& c) {
   ctx().cls(total <= 8 ? "bits:<=8" : total <= 64 ? "bits:<=64" : "bits:>64");
 }
 
+// ---------------------------------------------------------------- big (readers over more than 4 GiB)
+
+// "All values / all read orders" has no size cap: a StringReader over a memory-mapped file of more than 4 GiB must
+// decode the bytes AT the offset it is given, for every accessor, also when the offset does not fit in 32 bits.
+// The data is a sparse anonymous mapping (MAP_NORESERVE; only the pages around the reads are ever touched).
+//
+// case: n = [k, extra, seed, then triples (acc, rel, flags)]
+//   the reader covers k * 2^32 + extra bytes (k = 1..3, 16 <= extra <= 2^20); base = k * 2^32
+//   acc   0..7   the 24/48-bit accessors (kWide)
+//         8..27  ordinary accessors: 8 + 2 * type + big   (controls: the same offsets through every other width)
+//         100    raw block: pread / pgetv / go + read of (flags >> 8) bytes
+//   rel   signed offset of the read relative to base (offset = base + rel, inside the data)
+//   flags bit 0: cursor form (go(offset) + get_*) instead of pget_*;  bit 1: advance (cursor form only)
+// Before the reads, each read's byte range is filled with a seed-derived pattern, and the ranges at the same offset
+// minus every multiple of 2^32 with the complemented pattern; the model is a sparse map of the bytes written.
+struct BigMap {
+  uint8_t* p = nullptr;
+  size_t len = 0;
+  explicit BigMap(size_t n) {
+    void* m = mmap(nullptr, n, PROT_READ | PROT_WRITE, MAP_PRIVATE | MAP_ANONYMOUS | MAP_NORESERVE, -1, 0);
+    if (m != MAP_FAILED) {
+      p = static_cast<uint8_t*>(m);
+      len = n;
+    }
+  }
+  ~BigMap() {
+    if (p) munmap(p, len);
+  }
+  BigMap(const BigMap&) = delete;
+  BigMap& operator=(const BigMap&) = delete;
+};
+
+static const uint64_t kFourGiB = 1ULL << 32;
+
+static void run_big(const Case& c) {
+  if (c.n.size() < 3 || (c.n.size() - 3) % 3 != 0) throw std::logic_error("big: malformed case");
+  uint64_t k = c.u(0), extra = c.u(1), seed = c.u(2);
+  if (k < 1 || k > 3 || extra < 16 || extra > (1ULL << 20)) throw std::logic_error("big: size outside the generated domain");
+  const uint64_t base = k * kFourGiB, len = base + extra;
+  size_t nops = (c.n.size() - 3) / 3;
+  BigMap map(len);
+  if (!map.p) {
+    // an environment limit, not a behaviour of the library (strict overcommit, address-space limit)
+    ctx().exclude("big: cannot map more than 4 GiB of address space on this machine");
+    return;
+  }
+  struct Rd {
+    uint64_t acc, off, flags;
+    unsigned w;
+  };
+  std::vector<Rd> reads;
+  std::map<uint64_t, uint8_t> model;
+  auto poke = [&](uint64_t at, uint8_t v) {
+    map.p[at] = v;
+    model[at] = v;
+  };
+  for (size_t i = 0; i < nops; i++) {
+    uint64_t acc = c.u(3 + 3 * i), flags = c.u(5 + 3 * i);
+    int64_t rel = c.i(4 + 3 * i);
+    unsigned w;
+    if (acc < 8) w = kWide[acc].w;
+    else if (acc < 8 + 2 * T_COUNT) w = kWidth[(acc - 8) / 2];
+    else if (acc == 100) w = static_cast<unsigned>(flags >> 8);
+    else throw std::logic_error("big: bad accessor code");
+    if (acc == 100 && (w == 0 || w > 64)) throw std::logic_error("big: bad block size");
+    if (rel < -64 || rel > static_cast<int64_t>(extra) - static_cast<int64_t>(w)) throw std::logic_error("big: read outside the data");
+    uint64_t off = base + static_cast<uint64_t>(rel);
+    // pattern bytes: a pure function of (seed, op index, byte index); the low images hold the complement
+    uint64_t s = mix(seed, i);
+    for (unsigned j = 0; j < w; j++) {
+      uint8_t b = static_cast<uint8_t>(splitmix(s) >> 24);
+      for (uint64_t m = 1; m <= k; m++) {
+        if (off + j >= m * kFourGiB) poke(off + j - m * kFourGiB, static_cast<uint8_t>(~b));
+      }
+    }
+    reads.push_back({acc, off, flags, w});
+  }
+  // the high ranges are written last so that they hold exactly their pattern (an image of a later read may overlap an earlier read)
+  for (size_t i = 0; i < nops; i++) {
+    uint64_t s = mix(seed, i);
+    for (unsigned j = 0; j < reads[i].w; j++) poke(reads[i].off + j, static_cast<uint8_t>(splitmix(s) >> 24));
+  }
+  auto model_bytes = [&](uint64_t off, unsigned w, uint8_t* out) {
+    for (unsigned j = 0; j < w; j++) {
+      auto it = model.find(off + j);
+      out[j] = it == model.end() ? 0 : it->second;
+    }
+  };
+
+  StringReader r(map.p, len);
+  VCHECK(r.size() == len && r.where() == 0 && r.remaining() == len, "big-reader-init", "reader over ", len, " bytes: size ", r.size(), " where ", r.where());
+  bool odd_high = false;
+  for (const Rd& rd : reads) {
+    uint8_t bytes[64];
+    model_bytes(rd.off, rd.w, bytes);
+    bool cursor = rd.flags & 1, adv = (rd.flags >> 1) & 1;
+    std::string nm;
+    uint64_t got = 0, expect = 0;
+    try {
+      if (rd.acc == 100) {
+        std::string want(reinterpret_cast<const char*>(bytes), rd.w);
+        std::string g1 = r.pread(rd.off, rd.w);
+        VCHECK(g1 == want, "big:decode:pread", "pread(", rd.off, ",", rd.w, ") over a reader of ", len, " bytes returned ", hex(g1), " expected ", hex(want));
+        VCHECK(memcmp(r.pgetv(rd.off, rd.w), want.data(), rd.w) == 0, "big:decode:pgetv", "pgetv(", rd.off, ",", rd.w, ") differs");
+        r.go(rd.off);
+        std::string g2 = r.read(rd.w, adv);
+        VCHECK(g2 == want, "big:decode:read", "read(", rd.w, ") at ", rd.off, " returned ", hex(g2), " expected ", hex(want));
+        VCHECK(r.where() == rd.off + (adv ? rd.w : 0), "big:advance:read", "read(", rd.w, ",", adv, ") moved the cursor from ", rd.off, " to ", r.where());
+        continue;
+      }
+      if (rd.acc < 8) {
+        const WideAcc& a = kWide[rd.acc];
+        nm = a.name;
+        expect = ref_decode(bytes, a.w, a.big, a.sgn);
+        if (cursor) {
+          r.go(rd.off);
+          got = wide_get(r, static_cast<int>(rd.acc), adv);
+        } else {
+          got = wide_pget(r, static_cast<int>(rd.acc), rd.off);
+        }
+        if (rd.off + rd.w > kFourGiB) odd_high = true;
+      } else {
+        unsigned type = static_cast<unsigned>((rd.acc - 8) / 2);
+        bool big = (rd.acc - 8) & 1;
+        if (kWidth[type] == 1) big = false;
+        nm = reader_name(type, big);
+        expect = ref_decode(bytes, rd.w, big, kSigned[type]);
+        if (cursor) {
+          r.go(rd.off);
+          got = call_get(r, type, big, adv);
+        } else {
+          got = call_pget(r, type, big, rd.off);
+        }
+      }
+    } catch (const std::out_of_range& ex) {
+      VFAIL(cat("big:in-range-read-throws:", nm), (cursor ? "get_" : "pget_"), nm, " of ", rd.w, " bytes at ", rd.off, " of ", len, " threw out_of_range: ", ex.what());
+    }
+    const char* form = cursor ? "get_" : "pget_";
+    VCHECK(got == expect, cat("big:value:", form, nm), form, nm, (cursor ? (adv ? "()" : "(false)") : "(offset)"), " at offset ", rd.off, " (2^32*", rd.off >> 32, " + ", rd.off & 0xFFFFFFFFULL, ") of a reader over ", len,
+        " bytes returned ", (int64_t)got, " (0x", std::hex, got, std::dec, "), the bytes there are ", hex(std::string(reinterpret_cast<const char*>(bytes), rd.w)), " = ", (int64_t)expect);
+    if (cursor) {
+      uint64_t want_pos = rd.off + (adv ? rd.w : 0);
+      VCHECK(r.where() == want_pos, cat(adv ? "big:advance:get_" : "big:peek-advanced:get_", nm), "get_", nm, "(", adv, ") moved the cursor from ", rd.off, " to ", r.where(), ", expected ", want_pos);
+      VCHECK(r.remaining() == len - want_pos, "big:remaining", "remaining() is ", r.remaining(), " at ", want_pos, " of ", len);
+    }
+  }
+  if (odd_high) ctx().nontrivial_case();
+  ctx().cls(k == 1 ? "big:4GiB+" : k == 2 ? "big:8GiB+" : "big:12GiB+");
+}
+
+// ---------------------------------------------------------------- alias (the value handed to the writer lives in the writer)
+
+// A value appended or written positionally is what it was when the call was made - also when the argument refers to
+// bytes of the writer's own buffer (a field of the record copied to its end, `w.put<T>(r.pget<T>(k))` over a reader of
+// w.str(), `w.write(w.str())`): put<T> / pput<T> take `const T&`, write takes a pointer or a `const std::string&`.
+//
+// case: n = [build, prefix, seed, then quadruples (entry, tsel, src_sel, dst_sel)], bytes of the prefix = expand(seed)
+//   build  0: one write(prefix)    1: byte by byte (put_u8)    2: in chunks of 7 (write(ptr, 7))
+//          3: write(prefix) after the string was grown to 2 * prefix and reset() (spare capacity)
+//   entry  0  StringWriter::put<T>(const T&)          T = kAliasTypes[tsel], source at src (aligned down for T)
+//          1  StringWriter::write(const void*, n)     n = 1 + dst_sel % min(size, 64)
+//          2  StringWriter::write(const std::string&) with the writer's own str()
+//          3  StringWriter::pput<T>(dst, const T&)    destination inside the data, disjoint from the source or identical
+//          4  BufferWriter over a copy of the data: put<T> / write / pput<T> / pwrite from inside its own buffer to a
+//             disjoint place of it (dst_sel & 3 selects the form)
+//          5  StringWriter::pput<T>(dst, const T&) with dst + sizeof(T) > size (the write grows the buffer).  NOT generated:
+//             on the unchanged tree pput resizes before it copies, so the argument dangles when the string reallocates
+//             (reported; corpus/c01/alias_pput_grow.case.reported). The entry exists so that the report can be replayed.
+//   src = src_sel % (size - n + 1); dst likewise
+struct AliasP3 {
+  uint8_t b[3];
+} __attribute__((packed));
+struct AliasP12 {
+  phosg::be_uint32_t a;
+  phosg::le_uint64_t b;
+} __attribute__((packed));
+struct AliasP40 {
+  uint8_t b[40];
+};
+static_assert(sizeof(AliasP3) == 3 && sizeof(AliasP12) == 12 && sizeof(AliasP40) == 40);
+
+#define C01_ALIAS_TYPES(X)                                                                                       \
+  X(0, uint8_t) X(1, int8_t) X(2, uint16_t) X(3, phosg::be_uint16_t) X(4, phosg::le_int16_t) X(5, AliasP3)        \
+  X(6, uint32_t) X(7, float) X(8, phosg::be_uint32_t) X(9, phosg::le_uint32_t) X(10, phosg::be_float)             \
+  X(11, uint64_t) X(12, double) X(13, phosg::be_uint64_t) X(14, phosg::le_int64_t) X(15, phosg::re_double)        \
+  X(16, AliasP12) X(17, AliasP40)
+static const unsigned kAliasTypeCount = 18;
+static const char* kAliasTypeNames[kAliasTypeCount] = {"uint8_t", "int8_t", "uint16_t", "be_uint16_t", "le_int16_t", "packed3", "uint32_t", "float", "be_uint32_t", "le_uint32_t",
+    "be_float", "uint64_t", "double", "be_uint64_t", "le_int64_t", "re_double", "packed12", "struct40"};
+static const unsigned kAliasTypeSize[kAliasTypeCount] = {1, 1, 2, 2, 2, 3, 4, 4, 4, 4, 4, 8, 8, 8, 8, 8, 12, 40};
+
+template <typename F>
+static void with_alias_type(unsigned t, F&& f) {
+  switch (t) {
+#define X(i, T) \
+  case i: f(static_cast<T*>(nullptr)); return;
+    C01_ALIAS_TYPES(X)
+#undef X
+  }
+  throw std::logic_error("alias: bad type index");
+}
+// number of types (the table is sorted by size) that fit into `size` bytes
+static unsigned alias_types_fitting(size_t size) {
+  unsigned n = 0;
+  while (n < kAliasTypeCount && kAliasTypeSize[n] <= size) n++;
+  return n;
+}
+
+enum : uint64_t { A_PUT = 0, A_WRITE_PTR, A_WRITE_SELF, A_PPUT, A_BUFFER, A_PPUT_GROW, A_ENTRY_COUNT };
+static const char* kAliasEntryNames[A_ENTRY_COUNT] = {"put<T>", "write(ptr,n)", "write(str())", "pput<T>", "BufferWriter", "pput<T>-growing"};
+
+static void run_alias(const Case& c) {
+  if (c.n.size() < 3 || (c.n.size() - 3) % 4 != 0) throw std::logic_error("alias: malformed case");
+  uint64_t build = c.u(0), prefix = c.u(1), seed = c.u(2);
+  if (build > 3 || prefix < 1 || prefix > 4096) throw std::logic_error("alias: prefix outside the generated domain");
+  size_t nops = (c.n.size() - 3) / 4;
+  std::string m = vg::expand(seed, prefix); // model
+  StringWriter w;
+  switch (build) {
+    case 0: w.write(m); break;
+    case 1:
+      for (char ch : m) w.put_u8(static_cast<uint8_t>(ch));
+      break;
+    case 2:
+      for (size_t at = 0; at < m.size(); at += 7) w.write(m.data() + at, std::min<size_t>(7, m.size() - at));
+      break;
+    default:
+      w.extend_to(2 * prefix, 'x');
+      w.reset();
+      w.write(m);
+      break;
+  }
+  VCHECK(w.str() == m, "alias-setup", "writer does not hold the prefix");
+  struct Landed {
+    size_t off;
+    std::string bytes;
+  };
+  std::vector<Landed> landed;
+  for (size_t k = 0; k < nops; k++) {
+    uint64_t entry = c.u(3 + 4 * k), tsel = c.u(4 + 4 * k), src_sel = c.u(5 + 4 * k), dst_sel = c.u(6 + 4 * k);
+    if (entry >= A_ENTRY_COUNT) throw std::logic_error("alias: bad entry point");
+    const size_t S = m.size();
+    if (S > (1u << 20)) throw std::logic_error("alias: data outside the generated domain");
+    unsigned t = static_cast<unsigned>(tsel % alias_types_fitting(S));
+    std::string what = kAliasEntryNames[entry];
+    if (entry != A_WRITE_PTR && entry != A_WRITE_SELF) what = cat(what, " T=", kAliasTypeNames[t]);
+    std::string expect; // what the buffer must hold afterwards
+    size_t at = S, n = 0;
+    if (entry == A_WRITE_SELF) {
+      expect = m + m;
+      n = S;
+      w.write(w.str());
+    } else if (entry == A_WRITE_PTR) {
+      n = 1 + dst_sel % std::min<size_t>(S, 64);
+      size_t src = src_sel % (S - n + 1);
+      expect = m + m.substr(src, n);
+      w.write(w.str().data() + src, n);
+      what = cat(what, " n=", n, " src=", src);
+    } else {
+      with_alias_type(t, [&](auto* tag) {
+        using T = std::remove_pointer_t<decltype(tag)>;
+        n = sizeof(T);
+        size_t src = src_sel % (S - n + 1);
+        src -= src % alignof(T); // std::string storage is at least 8-aligned; a `const T&` must be aligned for T
+        const std::string value = m.substr(src, n); // the value of the argument when the call is made
+        what = cat(what, " src=", src);
+        if (entry == A_PUT) {
+          expect = m + value;
+          const T& ref = *reinterpret_cast<const T*>(w.str().data() + src);
+          w.put<T>(ref);
+        } else if (entry == A_PPUT) {
+          // destination inside the data; a destination overlapping the source only partly becomes the source itself
+          size_t dst = dst_sel % (S - n + 1);
+          if (dst != src && dst < src + n && src < dst + n) {
+            dst = src;
+            ctx().exclude("alias: pput<T> whose destination overlaps its own argument only partly (pput copies with memcpy; ASan reports memcpy-param-overlap on the unchanged tree): replaced by destination == source");
+          }
+          at = dst;
+          expect = m;
+          expect.replace(dst, n, value);
+          what = cat(what, " dst=", dst);
+          const T& ref = *reinterpret_cast<const T*>(w.str().data() + src);
+          w.pput<T>(dst, ref);
+        } else if (entry == A_PPUT_GROW) {
+          size_t dst = S - n + 1 + dst_sel % (n + 16); // straddling the end, at the end, up to 16 past it
+          at = dst;
+          expect = m;
+          expect.resize(dst + n, '\0');
+          expect.replace(dst, n, value);
+          what = cat(what, " dst=", dst);
+          const T& ref = *reinterpret_cast<const T*>(w.str().data() + src);
+          w.pput<T>(dst, ref);
+        } else {
+          // BufferWriter over its own copy; destination disjoint from the source (memcpy semantics inside one buffer)
+          expect = m; // the StringWriter is not touched
+          const size_t width = n;
+          n = 0;
+          std::unique_ptr<char[]> buf(new char[S]);
+          memcpy(buf.get(), m.data(), S);
+          std::string bexpect = m;
+          BufferWriter bw(buf.get(), S);
+          unsigned form = dst_sel & 3;
+          size_t dst = (dst_sel >> 2) % (S - width + 1);
+          bool disjoint_possible = true;
+          if (form < 2) {
+            // cursor forms write at 0: the source must start at or after `width` (sizeof(T) is a multiple of alignof(T))
+            if (S < 2 * width) disjoint_possible = false;
+            else {
+              src = width + src_sel % (S - 2 * width + 1);
+              src -= src % alignof(T);
+            }
+            dst = 0;
+          } else if (dst < src + width && src < dst + width) {
+            if (src >= width) dst = 0;
+            else if (src + 2 * width <= S) dst = src + width;
+            else disjoint_possible = false;
+          }
+          if (!disjoint_possible) {
+            ctx().cls("alias:BufferWriter:no-disjoint-place");
+            return;
+          }
+          const std::string bvalue = m.substr(src, width);
+          bexpect.replace(dst, width, bvalue);
+          const T& ref = *reinterpret_cast<const T*>(buf.get() + src);
+          switch (form) {
+            case 0: bw.put<T>(ref); break;
+            case 1: bw.write(buf.get() + src, width); break;
+            case 2: bw.pput<T>(dst, ref); break;
+            default: bw.pwrite(dst, buf.get() + src, width); break;
+          }
+          VCHECK(std::string(buf.get(), S) == bexpect, cat("alias-bytes:BufferWriter:", form == 0 ? "put<T>" : form == 1 ? "write" : form == 2 ? "pput<T>" : "pwrite"), what, " form ", form, " from offset ", src,
+              " of its own buffer to ", dst, ": buffer is ", hex(std::string(buf.get(), S), 96), " expected ", hex(bexpect, 96));
+          expect = m;
+          n = 0;
+        }
+      });
+    }
+    VCHECK(w.size() == expect.size(), cat("alias-size:", kAliasEntryNames[entry]), what, " on a writer of ", S, " bytes: size() is ", w.size(), " expected ", expect.size());
+    if (w.str() != expect) {
+      size_t i = 0;
+      while (i < expect.size() && w.str()[i] == expect[i]) i++;
+      VFAIL(cat("alias-bytes:", kAliasEntryNames[entry]), what, " on a writer of ", S, " bytes (build ", build, "): byte ", i, " is ", (unsigned)static_cast<uint8_t>(w.str()[i]), ", the argument held ", (unsigned)static_cast<uint8_t>(expect[i]),
+          " there when the call was made; written part is ", hex(w.str().substr(at, std::min<size_t>(n, 48))), " expected ", hex(expect.substr(at, std::min<size_t>(n, 48))));
+    }
+    if (n && entry != A_WRITE_SELF) landed.push_back({at, expect.substr(at, n)});
+    m = expect;
+    ctx().cls(cat("alias:", kAliasEntryNames[entry]));
+  }
+  // read back: every landed value through the reader, against the bytes the argument had
+  StringReader r(w.str());
+  for (const Landed& l : landed) {
+    size_t n = l.bytes.size();
+    bool later_overwritten = (m.substr(l.off, n) != l.bytes);
+    if (later_overwritten) continue; // a later pput replaced it (checked byte-wise above)
+    VCHECK(r.pread(l.off, n) == l.bytes, "alias-readback:pread", "pread(", l.off, ",", n, ") differs from the value written");
+    if (n == 1 || n == 2 || n == 4 || n == 8) {
+      unsigned type = n == 1 ? T_U8 : n == 2 ? T_U16 : n == 4 ? T_U32 : T_U64;
+      for (int big = 0; big < (n > 1 ? 2 : 1); big++) {
+        uint64_t got = call_pget(r, type, big, l.off);
+        uint64_t want = ref_decode(reinterpret_cast<const uint8_t*>(l.bytes.data()), static_cast<unsigned>(n), big, false);
+        VCHECK(got == want, cat("alias-readback:pget_", reader_name(type, big)), "pget_", reader_name(type, big), "(", l.off, ") returned ", got, ", the value handed to the writer decodes to ", want);
+      }
+    }
+  }
+  if (nops >= 1 && prefix >= 4) ctx().nontrivial_case();
+}
+
 // ---------------------------------------------------------------- generators
 
 static uint64_t gen_scalar_bits(unsigned type) {
@@ -729,7 +1099,138 @@ static Case gen_bits() {
   return c;
 }
 
+static unsigned big_acc_width(uint64_t acc) { return acc < 8 ? kWide[acc].w : kWidth[(acc - 8) / 2]; }
+
+static Case gen_big() {
+  Case c("big");
+  uint64_t k = vg::pick<uint64_t>({1, 1, 1, 2, 3});
+  uint64_t extra = vg::pick<uint64_t>({16, 64, 4096, 65536}) + vg::below(4096);
+  c.N(k).N(extra).N(vg::u64());
+  uint64_t nops = 1 + vg::below(8);
+  for (uint64_t i = 0; i < nops; i++) {
+    uint64_t pick = vg::below(10), acc, flags = vg::below(4);
+    unsigned w;
+    if (pick < 6) {
+      acc = vg::below(8);
+      w = big_acc_width(acc);
+    } else if (pick < 9) {
+      acc = 8 + vg::below(2 * T_COUNT);
+      w = big_acc_width(acc);
+    } else {
+      acc = 100;
+      w = 1 + static_cast<unsigned>(vg::below(16));
+      flags |= static_cast<uint64_t>(w) << 8;
+    }
+    int64_t rel, last = static_cast<int64_t>(extra) - w;
+    switch (vg::below(6)) {
+      case 0: rel = 0; break; // exactly at a multiple of 2^32
+      case 1: rel = static_cast<int64_t>(vg::below(8)); break;
+      case 2: rel = -static_cast<int64_t>(1 + vg::below(8)); break; // straddling (or just below) the multiple of 2^32
+      case 3: rel = last; break; // ending exactly at the end of the data
+      case 4: rel = static_cast<int64_t>(vg::below(static_cast<uint64_t>(last) + 1)); break;
+      default: rel = last - static_cast<int64_t>(vg::below(std::min<uint64_t>(16, static_cast<uint64_t>(last) + 1))); break;
+    }
+    c.N(acc).I(rel).N(flags);
+  }
+  return c;
+}
+
+static Case gen_alias() {
+  Case c("alias");
+  uint64_t build = vg::below(4), prefix;
+  switch (vg::below(4)) {
+    case 0: prefix = 1 + vg::below(40); break; // around the inline-storage limit of std::string
+    case 1: prefix = static_cast<uint64_t>(static_cast<int64_t>(vg::pick<uint64_t>({15, 30, 60, 120, 240, 480, 960})) + vg::range(-8, 1)); break; // capacity steps of a doubling string
+    case 2: prefix = 1 + vg::below(600); break;
+    default: prefix = 1 + vg::scaled(2000); break;
+  }
+  c.N(build).N(prefix).N(vg::u64());
+  size_t S = prefix;
+  uint64_t nops = 1 + vg::below(4);
+  for (uint64_t i = 0; i < nops; i++) {
+    uint64_t pick = vg::below(100);
+    uint64_t entry = pick < 45 ? A_PUT : pick < 60 ? A_WRITE_PTR : pick < 68 ? A_WRITE_SELF : pick < 85 ? A_PPUT : A_BUFFER;
+    if (entry == A_PPUT && vg::chance(1, 4)) {
+      // a positional write that GROWS the writer from an argument inside it: real defect of the unchanged tree (reported), kept out
+      ctx().exclude("alias: pput<T> landing past the end with an argument referring into the writer (pput resizes before it copies: reported defect of the unchanged tree): replaced by a destination inside the data");
+    }
+    if (entry == A_WRITE_SELF && S > 50000) entry = A_PUT;
+    uint64_t tsel = vg::below(alias_types_fitting(S));
+    uint64_t dst_sel = vg::below(1 << 20);
+    size_t n = entry == A_WRITE_SELF ? S : entry == A_WRITE_PTR ? 1 + dst_sel % std::min<size_t>(S, 64) : kAliasTypeSize[tsel];
+    uint64_t src_sel;
+    switch (vg::below(5)) {
+      case 0: src_sel = 0; break;
+      case 1: src_sel = 3; break;
+      case 2: src_sel = 8; break;
+      case 3: src_sel = S - n; break;
+      default: src_sel = vg::below(S - n + 1); break;
+    }
+    c.N(entry).N(tsel).N(src_sel).N(dst_sel);
+    if (entry == A_PUT || entry == A_WRITE_PTR || entry == A_WRITE_SELF) S += n;
+  }
+  return c;
+}
+
 // ---------------------------------------------------------------- enumerators
+
+// every odd-width accessor (and, as controls, every ordinary one) at and around multiples of 2^32 and at the end of the data
+static void enum_big(Enum& e) {
+  uint64_t idx = 0;
+  const uint64_t extra = 8192;
+  for (uint64_t k = 1; k <= (e.thorough() ? 3u : 2u); k++) {
+    for (uint64_t acc = 0; acc < 8 && !e.stop; acc++) {
+      if (!e.mine(idx++)) continue;
+      int64_t w = big_acc_width(acc);
+      Case c("big");
+      c.N(k).N(extra).N(0xB16 + 131 * acc + k);
+      for (int64_t rel : {-w, -(w - 1), int64_t(-1), int64_t(0), int64_t(1), int64_t(5), int64_t(4093), int64_t(extra) - w})
+        for (uint64_t flags : {0, 3, 1}) c.N(acc).I(rel).N(flags);
+      e.exec(c);
+    }
+    for (unsigned half = 0; half < 2 && !e.stop; half++) {
+      if (!e.mine(idx++)) continue;
+      Case c("big");
+      c.N(k).N(extra).N(0xC0 + half + k);
+      for (uint64_t acc = 8 + half * T_COUNT; acc < 8 + (half + 1) * T_COUNT; acc++) {
+        int64_t w = big_acc_width(acc);
+        for (int64_t rel : {int64_t(-1), int64_t(0), int64_t(5), int64_t(extra) - w})
+          for (uint64_t flags : {0, 3}) c.N(acc).I(rel).N(flags);
+      }
+      c.N(100).I(-3).N((16 << 8) | 3).N(100).I(int64_t(extra) - 16).N((16 << 8) | 1);
+      e.exec(c);
+    }
+  }
+  e.complete(cat("readers over 2^32 and 2*2^32", e.thorough() ? " and 3*2^32" : "", " + 8192 bytes: each of the eight 24/48-bit accessors as pget_*, get_*() and get_*(false) at offsets base-w, base-w+1, base-1, base, base+1, "
+      "base+5, base+4093 and end-w; every ordinary accessor (u8..f64, b/l) as pget_* and get_* at base-1, base, base+5, end-w; raw blocks across base and at the end"));
+}
+
+// every prefix length 1..600: a value of every type referring into the writer's own buffer, appended through put<T>
+static void enum_alias(Enum& e) {
+  const unsigned nbuild = e.thorough() ? 4 : 2;
+  for (uint64_t prefix = 1; prefix <= 600 && !e.stop; prefix++) {
+    if (!e.mine(prefix)) continue;
+    for (uint64_t build = 0; build < nbuild; build++) {
+      unsigned nt = alias_types_fitting(prefix);
+      for (unsigned t = 0; t < nt; t++) {
+        size_t n = kAliasTypeSize[t];
+        for (uint64_t src : {uint64_t(0), uint64_t(3), uint64_t(8), uint64_t(prefix - n)}) {
+          if (src > prefix - n) continue;
+          e.exec(Case("alias").N(build).N(prefix).N(prefix * 31 + t).N(A_PUT).N(t).N(src).N(0));
+        }
+        // positional: the first field copied over the last one, and a field onto itself
+        e.exec(Case("alias").N(build).N(prefix).N(prefix * 37 + t).N(A_PPUT).N(t).N(0).N(prefix - n).N(A_PPUT).N(t).N(3).N(3).N(A_PUT).N(t).N(prefix - n).N(0));
+      }
+      e.exec(Case("alias").N(build).N(prefix).N(prefix * 41).N(A_WRITE_PTR).N(0).N(0).N(3).N(A_WRITE_PTR).N(0).N(prefix).N(prefix - 1));
+      e.exec(Case("alias").N(build).N(prefix).N(prefix * 43).N(A_WRITE_SELF).N(0).N(0).N(0).N(A_PUT).N(nt - 1).N(prefix).N(0));
+      e.exec(Case("alias").N(build).N(prefix).N(prefix * 47).N(A_BUFFER).N(nt - 1).N(prefix / 2).N(0).N(A_BUFFER).N(nt / 2).N(0).N(2 + 4 * (prefix - 1)).N(A_BUFFER).N(0).N(prefix - 1).N(3));
+    }
+  }
+  e.complete(cat("every prefix length 1..600 x ", nbuild, " ways of building the prefix (one write / byte by byte", e.thorough() ? " / chunks of 7 / into spare capacity" : "",
+      ") x every fitting type of {u8 s8 u16 be_u16 le_s16 packed3 u32 float be_u32 le_u32 be_float u64 double be_u64 le_s64 re_double packed12 struct40}: put<T> of a "
+      "reference to offset 0, 3, 8 and size-sizeof(T) of the writer's own data; pput<T> of the first field over the last and of a field onto itself; write(ptr, n) and "
+      "write(str()) of the writer's own data; BufferWriter put<T>/pput<T>/pwrite between disjoint places of its own buffer"));
+}
 
 // every value of every 16-bit (and 8-bit) accessor pair, appended and positional, plus boundary values of the wider ones
 static void enum_seq(Enum& e) {
@@ -858,5 +1359,7 @@ int main(int argc, char** argv) {
   checks.push_back({"seq", run_seq, gen_seq, 160000, 2000000, 100, enum_seq});
   checks.push_back({"g2448", run_g2448, gen_g2448, 120000, 400000, 100, enum_g2448});
   checks.push_back({"bits", run_bits, gen_bits, 120000, 600000, 100, enum_bits});
+  checks.push_back({"alias", run_alias, gen_alias, 60000, 400000, 100, enum_alias});
+  checks.push_back({"big", run_big, gen_big, 240, 2400, 100, enum_big});
   return main_(argc, argv, checks);
 }
